@@ -35,7 +35,7 @@ ASSUMPTIONS = E1_ASSUMPTIONS + [
     "does not choose); both are accepted",
     "the @module clauses are a pure function of the file text; they are checked because the pages exist, simulation adds "
     "nothing to them"]
-PROBES = ["path_spelled_with_separator_twin", "stale_pages_in_output_dir", "module_named_like_generated", "subdir_named_like_prefix", "other_input_first", "single_file_input", "dir_input", "spelled_dot", "spelled_dotdot", "spelled_abs", "spelled_trailing_slash",
+PROBES = ["python_api_entry", "module_head_with_tab_or_crlf", "path_spelled_with_separator_twin", "stale_pages_in_output_dir", "module_named_like_generated", "subdir_named_like_prefix", "other_input_first", "single_file_input", "dir_input", "spelled_dot", "spelled_dotdot", "spelled_abs", "spelled_trailing_slash",
           "prefix_default", "prefix_cli", "prefix_sfile", "prefix_user", "sep_not_dot", "ext_in_titles", "ext_in_modules",
           "custom_headers", "module_named", "module_unnamed", "module_body", "depth_ge_2", "moved_tree"]
 
@@ -64,7 +64,7 @@ def strategy(cfg):
         single = None
         if cfg["single"] and cm:
             single = draw(st.sampled_from(cm))
-        prefix = draw(st.sampled_from([None, None, "pfx", "My.Pkg", "top-level"]))
+        prefix = draw(st.sampled_from([None, None, "pfx", "My.Pkg", "top-level", "libs/core", "org/pkg/"]))
         rst = {}
         if cfg["rst_opts"]:
             sep = draw(st.sampled_from(c13.SEPS))
@@ -103,6 +103,17 @@ def strategy(cfg):
                     if " " not in gen_name and "(" not in gen_name:
                         head, _, rest = c.partition("\n")
                         tree[rel] = "#[[[ @module " + gen_name + "\n" + rest
+        for rel in sorted(tree):
+            c = tree[rel]
+            if c and c.startswith("#[[[ @module"):
+                how = draw(st.integers(0, 5))
+                if how == 1:
+                    c = c.replace("#[[[ @module ", "#[[[ @module\t", 1)       # a TAB between '@module' and the name
+                elif how == 2:
+                    c = "#[[[\t@module" + c[len("#[[[ @module"):]            # a TAB before '@module'
+                elif how == 3:
+                    c = c.replace("\n", "\r\n")                            # the file was saved with CRLF line ends
+                tree[rel] = c
         locs = draw(st.lists(st.sampled_from(LOCS), min_size=1, max_size=2, unique=True))
         files = gen.base_files(None)
         files["cfg"] = None
@@ -130,7 +141,9 @@ def strategy(cfg):
                                "prefix_src": draw(st.integers(0, 2)), "listing_key": draw(st.integers(0, 9)),
                                # another directory documented first in the same invocation
                                "decoy_first": draw(st.integers(0, 3)) == 0,
-                               "stale_out": draw(st.integers(0, 2)) == 0})
+                               "stale_out": draw(st.integers(0, 2)) == 0,
+                               # the documented Python entry point instead of the command line
+                               "api": draw(st.integers(0, 4)) == 0})
         return {"files": files, "proj_name": proj_name, "tree": tree, "single": single, "prefix": prefix, "rst": rst,
                 "placements": placements}
     return world()
@@ -158,12 +171,20 @@ def expected_names(spec, rel):
     return names(ext_t), names(ext_m)
 
 
+_MODHEAD = None
+
+
 def module_info(text):
     """Recover what the generator put into the file's leading @module doccomment (from the source text itself)."""
-    if not text.startswith("#[[[ @module"):
-        return None
+    global _MODHEAD
+    import re
+    if _MODHEAD is None:
+        _MODHEAD = re.compile(r"^#\[\[\[[ \t]?@module(?:[ \t]+(\S+))?[ \t]*\r?$")
     head, _, rest = text.partition("\n")
-    name = head[len("#[[[ @module"):].strip() or None
+    m = _MODHEAD.match(head)
+    if not m:
+        return None
+    name = m.group(1) or None
     body = []
     for ln in rest.split("\n"):
         if ln.startswith("#]]"):
@@ -282,7 +303,25 @@ def evaluate(spec, ctx):
             argv += ["-o", "{BASE}/out"] + (["{BASE}/decoys/zzdecoy"] if pl.get("decoy_first") else []) + [pl["input"]]
             if pl.get("decoy_first"):
                 ctx.probes["other_input_first"] += 1
-            res = core.run_call(base, {"cwd": pl["cwd"], "argv": argv, "listing_key": pl["listing_key"]})
+            entry = None
+            if pl.get("api"):
+                ctx.probes["python_api_entry"] += 1
+                cm_ = core.import_cminx()
+                inputs_ = argv[argv.index("{BASE}/out") + 1:]
+
+                def entry(_argv, _cm=cm_, _rst=dict(spec["rst"] or {}), _inputs=inputs_, _single=bool(spec["single"])):
+                    from cminx.config import InputSettings, OutputSettings, RSTSettings, Settings
+                    hd = _rst.get("headers")
+                    kw = {"prefix": spec["prefix"], "module_path_separator": _rst.get("module_path_separator", "."),
+                          "file_extensions_in_titles": _rst.get("file_extensions_in_titles", False),
+                          "file_extensions_in_modules": _rst.get("file_extensions_in_modules", False)}
+                    if hd is not None:
+                        kw["headers"] = tuple(hd.split() if isinstance(hd, str) else hd)     # API callers often pass a tuple
+                    st_ = Settings(input=InputSettings(recursive=not _single), output=OutputSettings(directory=base + "/out"),
+                                   rst=RSTSettings(**kw))
+                    for i_ in _inputs:
+                        _cm.document(i_.replace("{BASE}", base), st_)
+            res = core.run_call(base, {"cwd": pl["cwd"], "argv": argv, "listing_key": pl["listing_key"]}, entry=entry)
             ctx.note_call(res)
             if res.status != 0:
                 viols.append(viol("run-failed", f"{where}: status {res.status} exc {res.exc}"))
@@ -357,8 +396,11 @@ def _probes(ctx, spec, tree):
     eff = spec["prefix"] if spec["prefix"] is not None else spec["proj_name"]
     if any(rel.split("/")[0] == eff and tree[rel] is None for rel in tree):
         ctx.probes["subdir_named_like_prefix"] += 1
+    if any(c and (c.startswith("#[[[\t@module") or c.startswith("#[[[ @module\t") or (c.startswith("#[[[ @module") and "\r\n" in c))
+           for c in tree.values()):
+        ctx.probes["module_head_with_tab_or_crlf"] += 1
     for rel, c in tree.items():
-        if c and c.startswith("#[[[ @module"):
+        if c and module_info(c) is not None:
             info = module_info(c)
             if info["name"] and not info["name"].startswith("zq"):
                 ctx.probes["module_named_like_generated"] += 1
